@@ -33,6 +33,8 @@ var sites = []gen.Site{
 var traced = []struct{ name, file, fn, skipIf string }{
 	{"AddBlock", "core/store/ledgerstore/ledger_store.go", "AddBlock", ""},
 	{"SubmitBlock", "core/store/ledgerstore/ledger_store.go", "SubmitBlock", ""},
+	{"AddHeader", "core/store/ledgerstore/ledger_store.go", "AddHeader", ""},
+	{"AddHeaders", "core/store/ledgerstore/ledger_store.go", "AddHeaders", ""},
 	{"saveBlock", "core/store/ledgerstore/ledger_store.go", "saveBlock", ""},
 	{"submitBlock", "core/store/ledgerstore/ledger_store.go", "submitBlock", ""},
 	{"saveBlockToBlockStore", "core/store/ledgerstore/ledger_store.go", "saveBlockToBlockStore", ""},
